@@ -106,7 +106,7 @@ def execute(spec):
     def alarm(*a):
         raise TimeoutError()
     signal.signal(signal.SIGALRM, alarm)
-    signal.alarm(60)
+    signal.alarm(600)
     try:
         for b in blocks:
             b.__enter__()
